@@ -155,4 +155,98 @@ def run(prog):
                                                   "that triple (%s)"}[tname] % (caller, ", ".join(sorted(allowed)))))
         if n < floor:
             out.append(inst("WC", "%s:callers" % tname, UNDECIDED, None, None, "only %d callers found (expected >= %d)" % (n, floor)))
+    out += owned_state(prog)
+    return out
+
+
+def _only_from(prog, f, ok_root, depth=4):
+    """f is (a closure of) an accepted function, or a private helper all of whose callers, two levels up, are"""
+    if ok_root(f):
+        return True
+    frontier, level = [f], 0
+    while frontier and level < depth:
+        nxt = []
+        for g in frontier:
+            if "{closure" in g.npath:
+                parent = [h for h in prog.lib_fns if h.npath == g.npath.split("::{closure")[0]]
+                ws = parent
+            else:
+                ws = _who_calls(prog, g)
+            if not ws:
+                return False
+            for w in ws:
+                if not ok_root(w):
+                    nxt.append(w)
+        frontier = nxt
+        level += 1
+    return not frontier
+
+
+def owned_state(prog):
+    """Two pieces of state that are only sound in the hands of their owner.
+
+    hash-memo     the per-node cell behind `cached_semantic_hash` is keyed by nothing: it holds the hash for whichever field
+                  and weight map the first caller used.  It is the cache of a builder that owns exactly one map (the
+                  hash-identified builders); the pure query `semantic_hash`, which takes any map, must not go through it.
+    watch-tables  under two-literal watching a watch list names *two* of the clauses' literals, not the clauses a variable
+                  occurs in: "not watched" does not mean "unconstrained".  The tables mean something only to the
+                  propagation itself (`UnitPropagate::new` / `decide`); an accessor that lets the compiler ask them is
+                  reported with that reason."""
+    out = []
+    # ---- hash-memo
+    def memo_owner(f):
+        root = f.npath.split("::{closure")[0]
+        return root.split("::")[-1] == "cached_semantic_hash" or "builder::sdd::semantic" in root or \
+            "builder::decision_nnf::semantic" in root
+    seen = set()
+    for f in prog.lib_fns:
+        if "::test" in f.npath or f.name.startswith("test") or not any(b["term"]["k"] == "call" for b in f.blocks):
+            continue
+        for cs in f.terms.calls:
+            if cs.callee.name != "cached_semantic_hash":
+                continue
+            caller = f.npath.split("::{closure")[0]
+            key = "hash-memo:cached_semantic_hash<-%s" % caller
+            if key in seen:
+                continue
+            seen.add(key)
+            ok = _only_from(prog, f, memo_owner)
+            out.append(inst("WC", key, OK if ok else VIOLATION, f, cs.line,
+                            "called by the memo's owner (a builder with one field and one weight map, or the memoised recursion)" if ok else
+                            "`%s` answers from the per-node hash cell, which is not keyed by the field or the weight map: it returns "
+                            "whatever hash was computed first for that node (another prime, another map), so the query is no longer "
+                            "a function of its arguments; only the hash-identified builders, which own one map, may use the cell"
+                            % caller.split("::")[-1]))
+    if len(seen) < 4:
+        out.append(inst("WC", "hash-memo:callers", UNDECIDED, None, None, "only %d callers of cached_semantic_hash found" % len(seen)))
+    # ---- watch-tables
+    import json as _json
+    UP = "repr::unit_prop::UnitPropagate"
+
+    def wl_owner(f):
+        root = f.npath.split("::{closure")[0]
+        nm = root.split("::")[-1]
+        return (UP + "::") in root and (nm == "decide" or nm.startswith("new"))
+    n = 0
+    for f in prog.lib_fns:
+        if "::test" in f.npath or f.name.startswith("test"):
+            continue
+        if (f.impl_trait or "").startswith(("std::", "core::", "serde::")):
+            continue          # derived Debug / Clone / serialisation
+        js = _json.dumps(f.blocks)
+        if '"watch_list_pos"' not in js and '"watch_list_neg"' not in js:
+            continue
+        caller = f.npath.split("::{closure")[0]
+        key = "watch-tables:access<-%s" % caller
+        if any(r["key"] == "WC:" + key for r in out):
+            continue
+        n += 1
+        ok = _only_from(prog, f, wl_owner)
+        out.append(inst("WC", key, OK if ok else VIOLATION, f, None,
+                        "the propagation itself (or a private helper of it)" if ok else
+                        "`%s` reads the watch tables outside the propagation: a watch list holds the clauses that *watch* a literal "
+                        "(two literals per clause), not the clauses the variable occurs in, so `no watcher` does not mean "
+                        "`unconstrained` — a decision based on it skips variables that still matter" % caller.split("::")[-1]))
+    if n < 2:
+        out.append(inst("WC", "watch-tables:accessors", UNDECIDED, None, None, "only %d functions touching the watch tables found" % n))
     return out
